@@ -192,7 +192,7 @@ func runC14Hist(h C14Hist, info *kit.Info) *kit.Finding {
 }
 
 func TestC14_Deadlines(t *testing.T) {
-	p := kit.Prop[C14Hist]{ID: "C14", Name: "Deadlines", Quick: 2000, Thorough: 100000, Gen: genC14Hist, Run: runC14Hist}
+	p := kit.Prop[C14Hist]{ID: "C14", Name: "Deadlines", Quick: 4000, Thorough: 400000, Gen: genC14Hist, Run: runC14Hist}
 	p.Execute(t)
 	natExec.Lock()
 	if natExec.ex != nil {
